@@ -147,10 +147,12 @@ var advances = []time.Duration{300 * time.Millisecond, 900 * time.Millisecond, 1
 func clientAddr(k int) string { return fmt.Sprintf("10.%d.%d.%d:5%03d", k%7, (k/7)%251, k%253, k%1000) }
 
 func TestC02Failover(t *testing.T) {
-	sub := lab.Sub("failover-histories", "rapid histories over {eject(i,window) via MarkBackendUnhealthy, advance, add (sometimes under a name already in use), remove(name), set_strategy, request(client), hold (request parked in a backend), release, spin(k)} "+
+	sub := lab.Sub("failover-histories", "rapid histories over {eject(i,window) via MarkBackendUnhealthy, advance, add (sometimes under a name already in use), remove(name), set_strategy, request(client), hold (request parked in a backend), release, spin(k), steady (a request every 30 ms from 300 ms before to 200 ms after the next window expiry), inflight (a backend's in-flight count set to 0/1/99/100/101/500)} "+
 		"against the real LoadBalancer.ServeHTTP in virtual time (L1 scripted backends, all answer 200), 5 strategies x pools of 1..6 x weights 1..6; oracle: served backend is outside every unhealthy window the harness issued, "+
 		"and 'no healthy backend' 503 only when every pool member is inside one; non-trivial = history with a request issued while 1 <= ejected < pool size")
 	sub.NontrivialFloor(0.35)
+	sub.Floor("steady-traffic-across-expiry", 0.08)
+	sub.Floor("inflight-99plus", 0.08)
 	lab.Assume("L1: scripted RoundTripper replaces http.Transport; ejection is issued directly through MarkBackendUnhealthy (passive/active ejection rules are C04)")
 	maxLen := lab.Scale(40, 80)
 	lab.Check(t, sub, 4000, 120000, func(rt *rapid.T) {
@@ -168,7 +170,8 @@ func TestC02Failover(t *testing.T) {
 		var viol string
 		partial := 0
 		requests := 0
-		dupNames, switched := false, false
+		dupNames, switched, steady, loaded := false, false, false, false
+		inflight := map[string]int{}
 		rapid.SyncTest(rt, func(rt *rapid.T) {
 			w, err := newWorld(strategy, weights)
 			if err != nil {
@@ -242,10 +245,44 @@ func TestC02Failover(t *testing.T) {
 					w.lb.MarkBackendUnhealthy(w.backend(name), d)
 					w.until[name] = time.Now().Add(d)
 					hist = append(hist, fmt.Sprintf("eject(%s,%v)", name, d))
-				case k < 64: // advance
+				case k < 58: // advance
 					d := rapid.SampledFrom(advances).Draw(rt, "advance")
 					time.Sleep(d)
 					hist = append(hist, fmt.Sprintf("adv(%v)", d))
+				case k < 61: // steady traffic across the next window expiry: a request every 30 ms from 300 ms before to 200 ms after it
+					var next time.Time
+					for _, name := range w.names {
+						if u := w.until[name]; u.After(time.Now()) && (next.IsZero() || u.Before(next)) {
+							next = u
+						}
+					}
+					if next.IsZero() {
+						continue
+					}
+					if d := time.Until(next) - 300*time.Millisecond; d > 0 {
+						time.Sleep(d)
+					}
+					hist = append(hist, fmt.Sprintf("steady(30ms across the expiry in %v)", time.Until(next)))
+					steady = true
+					for j := 0; j < 40 && viol == "" && time.Now().Before(next.Add(200*time.Millisecond)); j++ {
+						doRequest(clientAddr(200+j%7), false)
+						time.Sleep(30 * time.Millisecond)
+					}
+				case k < 64: // in-flight load as the balancer sees it: a backend's count jumps to a value around or far above 100
+					if len(w.names) == 0 {
+						continue
+					}
+					name := w.names[rapid.IntRange(0, len(w.names)-1).Draw(rt, "load_on")]
+					target := rapid.SampledFrom([]int{0, 1, 99, 100, 101, 500}).Draw(rt, "inflight")
+					b := w.backend(name)
+					for ; inflight[name] < target; inflight[name]++ {
+						b.IncrementConnections()
+					}
+					for ; inflight[name] > target; inflight[name]-- {
+						b.DecrementConnections()
+					}
+					loaded = loaded || target >= 99
+					hist = append(hist, fmt.Sprintf("inflight(%s=%d)", name, target))
 				case k < 68: // strategy switch at runtime: health state must survive it
 					to := rapid.SampledFrom(lab.Strategies).Draw(rt, "switch")
 					if err := w.lb.SetStrategy(to); err != nil {
@@ -331,6 +368,12 @@ func TestC02Failover(t *testing.T) {
 		}
 		if switched {
 			labels = append(labels, "strategy-switch")
+		}
+		if steady {
+			labels = append(labels, "steady-traffic-across-expiry")
+		}
+		if loaded {
+			labels = append(labels, "inflight-99plus")
 		}
 		sub.Case(map[string]any{"strategy": strategy, "weights": weights, "history": hist}, partial > 0, labels...)
 		sub.Count("requests", requests)
